@@ -5,10 +5,17 @@
    and the averaging rule.  Here: Model/Descriptives.v wmedian_sorted IS fn_wm_tail when the index is the first
    position whose cumulative weight reaches midpoint - tolerance (wm_index = what searchsorted returns), the array
    reads being those of the model's sorted pairs. *)
-From CNV Require Import Base.Prelude Base.QNum Proofs.QNumLemmas Gen.DescDefaults Gen.FnWmedianTail Model.Descriptives
-  Proofs.FnDescriptives.
+From CNV Require Import Base.Prelude Base.QNum Proofs.QNumLemmas Gen.DescDefaults Gen.FnWmedianTail Model.Descriptives.
 From Coq Require Import Qabs Lia.
 Local Open Scope Q_scope.
+
+(* (kept local so that this tie depends on no other source tie) *)
+Lemma Qle_bool_wd a a' b b' : a == a' -> b == b' -> Qle_bool a b = Qle_bool a' b'.
+Proof.
+  intros Ha Hb. destruct (Qle_bool a b) eqn:E1, (Qle_bool a' b') eqn:E2; try reflexivity.
+  - apply Qle_bool_iff in E1. rewrite Ha, Hb in E1. apply Qle_bool_iff in E1. congruence.
+  - apply Qle_bool_iff in E2. rewrite <- Ha, <- Hb in E2. apply Qle_bool_iff in E2. congruence.
+Qed.
 
 (* searchsorted(thr) on the running sums started at acc: the first position whose running sum is >= thr
    (the length when there is none) *)
